@@ -110,6 +110,11 @@ def runCase17V (lines : Array (Nat × String)) (fixReap fixAck fixRetx fixQuiet 
         res := { res with oFails := res.oFails ++ ["implementation panicked: " ++ obs] }
         if res.kOk then res := { res with kOk := false, kLine := ln, kDetail := "panic" }
         kLive := false
+      else if obs.startsWith "xcheck" then
+        -- two equivalent API entry points (or a call and its getter) disagreed inside the harness
+        res := { res with oFails := res.oFails ++ ["equivalent API calls disagree: " ++ obs] }
+        if res.kOk then res := { res with kOk := false, kLine := ln, kDetail := obs }
+        kLive := false
       else
         match pendingOp with
         | some op =>
@@ -228,6 +233,11 @@ def runCase19 (lines : Array (Nat × String)) : CaseResult := Id.run do
         else if l2.startsWith "OBS " then
           obs := obs.push (ln2, (l2.drop 4).copy)
         j := j + 1
+      for (lnx, o) in obs do
+        if o.startsWith "xcheck" then
+          g := g.fail ("equivalent API calls disagree: " ++ o)
+          if res.kOk then res := { res with kOk := false, kLine := lnx, kDetail := o }
+      obs := obs.filter fun (_, o) => !o.startsWith "xcheck"
       match parseOp19 (l.splitOn " ") with
       | none =>
         if res.kOk then res := { res with kOk := false, kLine := ln, kDetail := "unparsable op" }
@@ -278,6 +288,9 @@ def runCase19 (lines : Array (Nat × String)) : CaseResult := Id.run do
         if res.kOk then res := { res with kOk := false, kLine := ln, kDetail := "panic" }
       else if l.startsWith "OBS stray" then
         g := g.fail ("observation off the tick grid: " ++ l)
+      else if l.startsWith "OBS xcheck" then
+        g := g.fail ("equivalent API calls disagree: " ++ l)
+        if res.kOk then res := { res with kOk := false, kLine := ln, kDetail := l }
       i := i + 1
   g := O19.finish g steps
   res := { res with oFails := res.oFails ++ g.fails }
